@@ -32,7 +32,7 @@ import (
 
 // withFile writes content to a fresh temp file, runs f on its path and removes everything again.
 func withFile(content []byte, f func(path string) string) string {
-	dir, err := ioutil.TempDir("", "c51-load-")
+	dir, err := ioutil.TempDir(tmpBase(), "c51-load-")
 	if err != nil {
 		return "err:tmp"
 	}
